@@ -132,7 +132,7 @@ def run_mie(case):
         return Outcome(failure("scat_matrix_offdiag", "off-diagonal S3/S4 not exactly 0 for a sphere"), True, labels)
     e2 = max(np.abs(smv[:, 0, 0] - S2).max(), np.abs(smv[:, 1, 1] - S1).max())
     met["scatmatrix_rel"] = e2 / sscale
-    if e2 > 3e-5 * TOLX * sscale:
+    if not (e2 <= 3e-5 * TOLX * sscale):
         return Outcome(failure("mie_vs_textbook_scatmatrix", "rel err %.3g" % (e2 / sscale)), True, labels)
     nontrivial = abs(complex(*s["m"]) - 1) > 0.02 and scale > 0
     return Outcome(None, nontrivial, labels, metrics=met)
@@ -168,7 +168,7 @@ def run_py(case):
     scale = max(np.abs(S1).max(), np.abs(S2).max())
     # van de Hulst (exp(+i w t)) <-> Bohren & Huffman: complex conjugation for real m
     e = max(np.abs(perp - np.conj(S1)).max(), np.abs(par - np.conj(S2)).max())
-    if e > 1e-5 * TOLX * scale:
+    if not (e <= 1e-5 * TOLX * scale):
         return Outcome(failure("python_series_vs_textbook", "rel err %.3g at x=%.4g m=%r" % (e / scale, s["x"], m),
                                size=size_class(s["x"])), True, labels)
     return Outcome(None, abs(m - 1) > 0.02, labels, metrics={"rel": e / scale})
@@ -285,6 +285,10 @@ def strat_layer(tier):
         "pl": st.fixed_dictionaries({"fx": gen.rounded(-0.3, 1.3, 4), "fy": gen.rounded(-0.3, 1.3, 4),
                                      "kgap": gen.logu(0.05, 1e3)}),
         "dup": st.integers(0, 3),
+        # same_index mode only: a large, strongly absorbing sphere, Im(m x) in [250, 2500] (sin and exp of the layer
+        # arguments overflow double precision above ~709)
+        "strong": st.one_of(st.none(), st.none(), st.none(), st.none(), st.none(), st.none(), st.none(),
+                            st.fixed_dictionaries({"x": st.floats(120.0, 900.0), "imx": gen.logu(250.0, 2500.0)})),
     })
 
 
@@ -306,6 +310,9 @@ def _zero_proximity(z):
 def run_layer(case, _probe=None):
     """_probe = j: evaluate the same pair with the size parameter moved by j ulp and return the raw values."""
     from holopy.scattering import calc_field, calc_scat_matrix, Mie, Sphere, LayeredSphere
+    strong = case.get("strong") if case["mode"] == "same_index" else None
+    if strong:
+        case = dict(case, x=strong["x"], m=[[case["m"][0][0], strong["imx"] / strong["x"]]] + list(case["m"][1:]))
     if _probe is not None:
         case = dict(case, x=case["x"] * (1 + _probe * 2.0 ** -52))
     o = case["o"]
@@ -318,13 +325,16 @@ def run_layer(case, _probe=None):
     if any(b <= a for a, b in zip(radii[:-1], radii[1:])):
         return Outcome(None, False, ["degenerate_radii"], skipped=True)
     ms = [complex(*m) for m in case["m"]]
-    ms = [m if m.imag * case["x"] <= 200 else complex(m.real, 200.0 / case["x"]) for m in ms]
+    if not strong:
+        ms = [m if m.imag * case["x"] <= 200 else complex(m.real, 200.0 / case["x"]) for m in ms]
     ns = [(m if m.imag else m.real) * o["nm"] for m in ms]
     R = radii[-1]
     center = gen.place(case["pl"], case["det"], unit, R, k)
     det = gen.build_detector(case["det"], unit)
     mode = case["mode"]
     labels = [mode, "layers_%d" % nl, size_class(case["x"]), "absorbing" if any(m.imag for m in ms) else "real"]
+    if strong:
+        labels.append("strongly_absorbing_Im_mx_over_709" if ms[0].imag * case["x"] > 709 else "strongly_absorbing")
     if mode == "same_index":
         A = Sphere(n=[ns[0]] * nl, r=radii, center=center)
         B = Sphere(n=ns[0], r=R, center=center)
@@ -425,7 +435,7 @@ def run_layer(case, _probe=None):
         if not np.isfinite(trunc):
             return Outcome(None, False, labels + ["reference_nonfinite"], skipped=True)
     ill = False
-    if err > (TOL_L * scale + 3.0 * trunc) * TOLX:
+    if not (err <= (TOL_L * scale + 3.0 * trunc) * TOLX):
         out = verdict("layered_reduction_field", (err - 3.0 * trunc) / scale, "field")
         if out is not None:
             return out
@@ -435,7 +445,7 @@ def run_layer(case, _probe=None):
     e2 = np.abs(sa - sb).max() / np.abs(sb).max()
     if not np.isfinite(e2):
         return Outcome(failure("nonfinite", "layered scattering matrix not finite", mode=mode), True, labels)
-    if e2 > TOL_L * TOLX:
+    if not (e2 <= TOL_L * TOLX):
         out = verdict("layered_reduction_scatmatrix", e2, "scatmatrix")
         if out is not None:
             return out
